@@ -85,7 +85,7 @@ def allDigits (s : Bytes) : Bool := !s.isEmpty && s.all fun b => 48 â‰¤ b && b â
 def decVal (s : Bytes) : Nat := s.foldl (fun acc d => acc * 10 + (d.toNat - 48)) 0
 
 /-- `strconv.ParseUint(s, 10, 32)`: decimal digits only (no sign, no underscore), value below 2Â³Â² -/
-def parseUint32 (s : Bytes) : Option Nat :=
+def cliParseUint32 (s : Bytes) : Option Nat :=
   if allDigits s âˆ§ decVal s < 4294967296 then some (decVal s) else none
 
 def fileMode (f : Flags) : FileMode :=
@@ -119,7 +119,7 @@ def cliAction (detected : Bytes) (f : Flags) : Action :=
     else if f.showRelmap â‰  [] then
       (if f.showRelmap = strBytes "global" then .relmapGlobal dir
        else if f.showRelmap = strBytes "all" then .relmapAll dir
-       else match parseUint32 f.showRelmap with
+       else match cliParseUint32 f.showRelmap with
          | some oid => .relmapDb dir oid
          | none => .relmapInvalid f.showRelmap)
     else if f.passwords â‰  [] then .passwords dir f.passwords
